@@ -43,6 +43,8 @@ def check_real(sc, toks, start_mode=True):
     panic = None
     bon_done = False
     ystep_last = False            # the running callback's last body activity is a yield_async that woke the task
+    wake_in_poll = False          # a Rust-level wake (yield_async / signal of a Rust-only event) happened in the current poll
+    spawn_build = sc.feat in ("s", "a")
 
     def task(t):
         if t not in tasks:
@@ -65,7 +67,15 @@ def check_real(sc, toks, start_mode=True):
         i += 1
         if tok.startswith("ystep:"):
             ystep_last = True
+            wake_in_poll = True
             continue
+        if tok.startswith("wflag:"):
+            wake_in_poll = True
+        m = re.match(r"wspoll:\d+=(\d+),", tok)
+        if m and cur is not None and int(m.group(1)) != 0:
+            # in-line delivery inside the callback: the runtime delivers the event and polls AGAIN, after
+            # resetting the sleep state to POLLING: wakes of the previous poll no longer count
+            wake_in_poll = False
         if not re.match(r"(wspoll|join|cget|cset|start|cb):", tok):
             ystep_last = False
         if tok.startswith("PANIC:") or tok.startswith("ABORT"):
@@ -116,6 +126,7 @@ def check_real(sc, toks, start_mode=True):
                     tv.running = True
                     cur = tv
                     last_host = None
+                    wake_in_poll = False
                 else:
                     # cset ptr: either start_task storing the new state, or the end of a callback
                     pass
@@ -169,6 +180,10 @@ def check_real(sc, toks, start_mode=True):
                 elif code == YIELD:
                     if not unfinished:
                         viol("yield-without-work", "task %d yields with no body left" % t)
+                    if not spawn_build and not wake_in_poll:
+                        # (with async-spawn FuturesUnordered itself wakes the executor when it has polled every
+                        # future once, which the log does not show: the rule is evaluated on the other builds)
+                        viol("yield-without-wake-during-last-poll", "task %d answers Yield although nothing woke it during its last poll (no yield_async, no signal of a Rust-only event since the last delivery)" % t)
                     if pending and not (last_host and re.match(r"wspoll:\d+=0,", last_host)):
                         viol("yield-with-events-unpolled", "task %d yields with waitables %s registered and no empty poll (last host call %s)" % (t, pending, last_host))
                 else:
